@@ -4,8 +4,9 @@
      prog: space-separated  t<to>=<ok> | i<from><to>=<ok> | s<to>=<ok> | g<st> | r<0|1>
            (Transition / TransitionIfCurrentState / SetState with the observed outcome, GetState,
            IsRunning), executed sequentially by one goroutine on a fresh finitestate.Machine
-     subs: ';'-separated  lo,hi,ulo,uhi,closed,cancelled,<digits received>
-           lo..hi bound the number of state changes at registration/read, ulo..uhi at un-registration
+     subs: ';'-separated  lo,hi,ulo,uhi,closed,cancelled,<digits received>[,ms]
+           lo..hi bound the number of state changes at registration/read, ulo..uhi at un-registration;
+           ms = milliseconds between the cancel and the consumer seeing the close (-1 unknown)
    RUN <runner> <id> <events> <subs> <res> <state-at-return> <notes>
      events: space-separated code lists (see coq/model/FsmRunners.v: 0,.. machine label of the
            reference subscriber / polls, 1,.. runner label); subs as above with bounds relative to the
@@ -39,7 +40,13 @@ let distinct : (string, unit) Hashtbl.t = Hashtbl.create 1024
 
 (* one extra subscriber against the history [h] (list of changes) *)
 let check_sub id h (spec : string) =
-  match split ',' spec with
+  let fields = split ',' spec in
+  (* forwardGrace of internal/finitestate: a cancelled subscriber whose consumer does not read for this
+     long loses the values still in flight (model label LFwdAbort, flag [dropped]: outside the hypothesis
+     "the consumer keeps up").  The close can then not be seen earlier than one grace after the cancel. *)
+  let grace_ms = 100 in
+  let close_ms = match fields with [_; _; _; _; _; _; _; ms] -> (try int_of_string ms with _ -> -1) | _ -> -1 in
+  match fields with
   | [lo; hi; ulo; uhi; closed; cancelled; got] | [lo; hi; ulo; uhi; closed; cancelled; got; _] ->
     let n = List.length h in
     let fix x = let v = int_of_string x in if v < 0 || v > n then n else v in
@@ -64,7 +71,17 @@ let check_sub id h (spec : string) =
           mismatch "stream-stale" id (Printf.sprintf "gap=%d got=%s hist=%s %s" g (digits_of_sts got) (digits_of_sts h) spec)
         end
       | None ->
-        mismatch "stream-unexplained" id (Printf.sprintf "got=%s hist=%s %s" (digits_of_sts got) (digits_of_sts h) spec)
+        if closed && cancelled && close_ms >= grace_ms
+           && classify_slow h got (nat_of_int lo) (nat_of_int hi) (nat_of_int ulo) (nat_of_int uhi)
+                (nat_of_int (close_ms / grace_ms))
+        then
+          (* the expected stream with at most (close_ms / grace) values missing, none of them delivered to the
+             wrapped channel before the cancel, and the consumer saw the close >= one grace period after the
+             cancel: the consumer did not keep reading (machine load); outside the hypothesis, counted, not a
+             disagreement *)
+          bump "stream_slow_after_cancel"
+        else
+          mismatch "stream-unexplained" id (Printf.sprintf "got=%s hist=%s %s" (digits_of_sts got) (digits_of_sts h) spec)
     end
   | [""] | [] -> ()
   | _ -> mismatch "parse" id spec
